@@ -52,7 +52,7 @@ PROP = Prop(
     pid="C10",
     coq_props="theories/C10/Props.v",
     coq_run=["theories/C10/Run.v"],
-    streams=[Stream("frame", "c10frame", n_quick=90, n_thorough=1500, shards_thorough=4, valid=valid, shrinker=shrinker,
+    streams=[Stream("frame", "c10frame", n_quick=90, n_thorough=750, shards_thorough=6, valid=valid, shrinker=shrinker,
                     extra_args=EXTRA,
                     what="Response.send into a buffer and keep-alive sequences over a real unix socket listener; "
                          "cells read with the typed accessors before serialisation vs the raw bytes")],
